@@ -220,14 +220,8 @@ void TensorAppendColumn(tensor *t, size_t order, dvector* column)
 void TensorAppendRow(tensor *t, size_t order, dvector* row)
 {
   if(order < t->order){
-    if(row->size != t->m[order]->row){
-      MatrixAppendRow(t->m[order], row);
-    }
-    else{
-      fprintf(stderr, "Error! The column number differ %zu != %zu\n", row->size, t->m[order]->row);
-      fflush(stderr);
-      abort();
-    }
+    /* like TensorAppendColumn: the matrix routine handles rows of any length */
+    MatrixAppendRow(t->m[order], row);
   }
   else{
     fprintf(stderr, "Error! Order number too high. %zu > %zu\n", order, t->order);
